@@ -53,6 +53,8 @@ def denote : Sp → FieldDecl
   /- "a: Integer(maximum=100) | Foo | str | 529 … a can be assigned … the number 529": the literal is one more
      alternative, an Enum of exactly that value -/
   | .pipeLit x v _ => .anyOf [denote x, .enumLit [v]]
+  /- "c is a tuple of 3: integer, string, float: c = Tuple[Integer, String, Float]" -/
+  | .tri585 x y z | .triTyping x y z | .triSub x y z | .triCall x y z => .tuplePos [denote x, denote y, denote z] false
 
 /-! ### the spelling forms of one meaning -/
 
@@ -79,6 +81,10 @@ def mkDict : CollForm → Sp → Sp → Sp
 def mkTup : CollForm → Sp → Sp → Sp
   | .pep585, x, y => .tup585 x y | .typing, x, y => .tupTyping x y | .sub, x, y => .tupSub x y
   | .call, x, y => .tupCall x y
+
+def mkTri : CollForm → Sp → Sp → Sp → Sp
+  | .pep585, x, y, z => .tri585 x y z | .typing, x, y, z => .triTyping x y z | .sub, x, y, z => .triSub x y z
+  | .call, x, y, z => .triCall x y z
 
 inductive AltForm where | union | anyOf | pipe
 deriving Repr, DecidableEq
@@ -111,6 +117,9 @@ inductive SameMeaning : Sp → Sp → Prop where
   /-- `tuple[X, Y] ~ typing.Tuple[X, Y] ~ Tuple[X, Y] ~ Tuple(items=[X, Y])` -/
   | tup (f g : CollForm) {x x' y y' : Sp} :
       SameMeaning x x' → SameMeaning y y' → SameMeaning (mkTup f x y) (mkTup g x' y')
+  /-- `tuple[X, Y, Z] ~ typing.Tuple[X, Y, Z] ~ Tuple[X, Y, Z] ~ Tuple(items=[X, Y, Z])` -/
+  | tri (f g : CollForm) {x x' y y' z z' : Sp} :
+      SameMeaning x x' → SameMeaning y y' → SameMeaning z z' → SameMeaning (mkTri f x y z) (mkTri g x' y' z')
   /-- `X | 529 ~ AnyOf[X, Enum(values=[529])]` (and `X | 529 ~ X' | 529`) -/
   | pipeLit {x y : Sp} (v : PyVal) (n m : Nat) : SameMeaning x y → SameMeaning (.pipeLit x v n) (.pipeLit y v m)
   | pipeLitAnyOf {x y : Sp} (v : PyVal) (n m : Nat) :
@@ -123,7 +132,8 @@ inductive SameMeaning : Sp → Sp → Prop where
 /-- the expression evaluates to a Field class or instance -/
 def isFieldExpr : Sp → Bool
   | .fcls _ | .finst _ | .lit _ _ | .bareCls _ | .bareInst _ | .sub _ _ | .call _ _
-  | .mapBare | .mapInst | .mapSub _ _ | .mapCall _ _ | .anyOf _ _ | .tupSub _ _ | .tupCall _ _ => true
+  | .mapBare | .mapInst | .mapSub _ _ | .mapCall _ _ | .anyOf _ _ | .tupSub _ _ | .tupCall _ _
+  | .triSub _ _ _ | .triCall _ _ _ => true
   | .pipe x _ => isFieldExpr x
   | .pipeLit x _ _ => isFieldExpr x
   | _ => false
@@ -160,7 +170,7 @@ def unionLike : Sp → Bool
 /-- the expression evaluates to a builtin class or a PEP-585 alias (`type.__or__` applies) -/
 def plainSp : Sp → Bool
   | .builtin k => k != .any
-  | .bareBuiltin _ | .dictBare | .pep585 _ _ | .dict585 _ _ | .tup585 _ _ => true
+  | .bareBuiltin _ | .dictBare | .pep585 _ _ | .dict585 _ _ | .tup585 _ _ | .tri585 _ _ _ => true
   /- a Structure class is a plain class as far as `|` is concerned -/
   | .scls _ _ => true
   | _ => false
@@ -196,6 +206,10 @@ def supported (tm : TypeMap) : Sp → Bool
   | .tupSub x y => supported tm x && supported tm y && itemOk x && itemOk y
   | .tupCall x y => supported tm x && supported tm y && isFieldOrStruct x && isFieldOrStruct y
   | .pipeLit x v _ => supported tm x && isFieldExpr x && scalarDefault v
+  | .tri585 x y z | .triTyping x y z => supported tm x && supported tm y && supported tm z
+  | .triSub x y z => supported tm x && supported tm y && supported tm z && itemOk x && itemOk y && itemOk z
+  | .triCall x y z =>
+    supported tm x && supported tm y && supported tm z && isFieldOrStruct x && isFieldOrStruct y && isFieldOrStruct z
   | .optional x => supported tm x && !unionLike x
   /- `None` may be either member (`Union[None, int]`, `AnyOf[None, Integer]`, `None | int`) -/
   | .union x y =>
@@ -276,6 +290,9 @@ def documentedSp : Sp → Bool
   | .tup585 x y | .tupTyping x y | .tupSub x y => documentedSp x && documentedSp y
   | .tupCall x y => documentedSp x && documentedSp y && isFieldOrStruct x && isFieldOrStruct y
   | .pipeLit x v _ => documentedSp x && isFieldExpr x && scalarDefault v
+  | .tri585 x y z | .triTyping x y z | .triSub x y z => documentedSp x && documentedSp y && documentedSp z
+  | .triCall x y z =>
+    documentedSp x && documentedSp y && documentedSp z && isFieldOrStruct x && isFieldOrStruct y && isFieldOrStruct z
   | .optional x => documentedSp x
   | .union x y | .anyOf x y | .pipe x y =>
     (isNoneLit x || documentedSp x) && (isNoneLit y || documentedSp y) && !(isNoneLit x && isNoneLit y)
@@ -331,7 +348,7 @@ def leafKind (s : Sp) : UKind :=
   if isNoneLit s then .none
   else if plainSp s then .plain
   else match s with
-    | .bareTyping _ | .tDictBare | .typingG _ _ | .dictTyping _ _ | .tupTyping _ _ => .typing
+    | .bareTyping _ | .tDictBare | .typingG _ _ | .dictTyping _ _ | .tupTyping _ _ | .triTyping _ _ _ => .typing
     | .fcls _ | .bareCls _ | .mapBare => .fcls
     | _ => .bad
 
